@@ -169,6 +169,17 @@ def parse_template(path: str):
                     if not m:
                         raise TemplateError(f"{path}:{i+1}: bad rewrite")
                     blk["rewrites"].append((m.group(1), m.group(2), m.group(3), False))
+                elif t.startswith("//@ region-sig <<"):
+                    blk["region_sig"], i = multiline(i)
+                elif t.startswith("//@ region-tail <<"):
+                    blk["region_tail"], i = multiline(i)
+                elif t.startswith("//@ region `"):
+                    # X16 region extraction: only the block statement that starts on the line containing the anchor
+                    # (through its matching brace) is taken from the function; the template supplies a signature whose
+                    # parameters are the region's free variables (region-sig) and the statements after it (region-tail)
+                    mr = re.match(r"//@ region `(.*?)`(?: \.\. `(.*)`)?\s*$", t)
+                    blk["region"] = mr.group(1)
+                    blk["region_to"] = mr.group(2)   # optional: the block statement that ends the region starts at this anchor
                 elif t.startswith("//@ prefix "):
                     blk["prefix"].append(lines[i].split("//@ prefix ", 1)[1])
                 elif t == "//@ external-body":
@@ -247,6 +258,28 @@ def build_item(repo: str, blk: dict, report: dict):
     b_close = b_open if bodiless else match_brace(mask, b_open)
     sig = text[:b_open].rstrip()
     body = text[b_open:b_close + 1]
+    if blk.get("region"):
+        bm = mask_source(body)
+        k = body.find(blk["region"])
+        if k < 0:
+            raise LostAnchor(f"{key}: region anchor `{blk['region']}` not found")
+        ls = body.rfind("\n", 0, k) + 1
+        k2 = k
+        if blk.get("region_to"):
+            k2 = body.find(blk["region_to"], k)
+            if k2 < 0:
+                raise LostAnchor(f"{key}: region end anchor `{blk['region_to']}` not found")
+        ob = bm.find("{", k2)
+        cb = match_brace(bm, ob)
+        region = body[ls:cb + 1]
+        log.append(("X16", f"region `{blk['region']}` ({region.count(chr(10)) + 1} lines) of {name} placed in a template-provided signature"))
+        report["items"][-1]["rules"] = [f"{r}: {d}" for r, d in log]
+        sig = blk.get("region_sig", "").rstrip()
+        body = "{\n" + region + "\n" + blk.get("region_tail", "") + "\n}"
+        m2 = re.search(r"\bfn\s+(\w+)", sig)
+        if not m2:
+            raise TemplateError(f"{key}: region-sig must contain a fn signature")
+        p_close = match_brace(mask_source(sig), sig.find("(", m2.start()))
     if blk["ret"]:
         m = re.search(r"->\s*", sig[p_close:])
         if not m:
@@ -555,7 +588,21 @@ def _run_verus_once(gen_path: str, linemap: dict, meta: dict, unit: str, rlimit:
             tool.append(dict(kind="rlimit", fn=fn, msg=msg, rendered=rendered))
             continue
         if internal:
-            undecided.append(dict(obligation=f"{unit}::{fn}::{internal}", kind=internal, fn=fn, line=line, msg=msg, rendered=rendered))
+            # an invariant marked `/* contract-inv */` in the template is the postcondition stated for a prefix of the
+            # input ("everything up to the cursor has been copied"): the loop body failing to preserve it is the failure
+            # of the property for one more element, and is reported as such
+            cinv = False
+            if internal in ("inv-step", "inv-init"):
+                try:
+                    gl = _gen_lines(gen_path)
+                    cands = [l for l in all_lines if 0 < l <= len(gl)]
+                    cinv = any("contract-inv" in gl[l - 1] for l in cands)
+                except Exception:
+                    cinv = False
+            if cinv:
+                violations.append(dict(obligation=f"{unit}::{fn}::inv", kind="inv", fn=fn, line=line, msg=msg + " (invariant that states the postcondition for a prefix)", rendered=rendered))
+            else:
+                undecided.append(dict(obligation=f"{unit}::{fn}::{internal}", kind=internal, fn=fn, line=line, msg=msg, rendered=rendered))
             continue
         if kind is None:
             tool.append(dict(kind="verus-error", fn=fn, msg=msg, rendered=rendered))
